@@ -261,13 +261,13 @@ def predict_set_block_type(model, d, frm, to, tname, attrs):
 # ---------------------------------------------------------------------------
 
 
-def run_and_compare(c, d, node, op, want, res, clause, size, want_reject_ok=True):
+def run_and_compare(c, d, node, op, want, res, clause, size, want_reject_ok=True, prep=None):
     """Run op; the result must equal `want` (JSON) when it returns; ValueError-family rejection is tolerated
     only when want_reject_ok."""
     res.transitions += 1
     case = {"schema": c.id, "spec": c.spec if c.id.startswith("fm") else None, "doc": d, "op": op}
     try:
-        status, tr, exc = ops.run_op(c, node, op)
+        status, tr, exc = ops.run_op(c, node, op, prep=prep)
     except engine.Watchdog:
         res.violate(clause + ".hang", case, "watchdog", size=size)
         return
@@ -402,6 +402,11 @@ def check_doc(c, sc, d, res, marks):
         if model.types[t].is_textblock:
             for at in (sc.get("attrs", {}).get(t) or [None])[:2]:
                 tbs.append((t, at))
+    first = (d.get("content") or [None])[0]
+    shift = tk.node_size(model, first) if first is not None else 0
+    d2 = {**d, "content": [first, *d["content"]]} if first is not None else None
+    if first is not None and validity.node_problem(model, d2):
+        first = None  # the top node cannot hold a second copy of its first child
     for a in range(n + 1):
         for b in range(a, n + 1):
             engine.kick(10)
@@ -409,6 +414,14 @@ def check_doc(c, sc, d, res, marks):
                 want = predict_set_block_type(model, d, a, b, tname, at)
                 run_and_compare(c, d, node, {"op": "set_block_type", "from": a, "to": b, "type": tname, "attrs": at},
                                 want, res, "c13.set_block_type", n, False)
+                # ... and as the SECOND operation of a Transform whose first step inserted a copy of the first block
+                # at the start (all positions shifted): same effect on the shifted range, the inserted block untouched
+                if first is not None:
+                    want2 = predict_set_block_type(model, d2, a + shift, b + shift, tname, at)
+                    run_and_compare(c, d, node, {"op": "set_block_type", "from": a + shift, "to": b + shift, "type": tname,
+                                                 "attrs": at, "after": "insert(0, first block)"},
+                                    want2, res, "c13.set_block_type", n, False,
+                                    prep=lambda tr: tr.insert(0, node.child(0)))
 
 
 def _markup_targets(model, sc):
